@@ -144,6 +144,75 @@ def judge_timeline(
     return bad
 
 
+def judge_serial_order(init: Any, timeline: Sequence[Dict[str, Any]]) -> List[Tuple[str, str]]:
+    """"The outcome equals that of some serial order", for the reads made DURING the run.
+
+    Applicable (the caller checks it) when every worker update ran as a whole at one point of the loop
+    thread's program — the property's quantifier.  `timeline` as in judge_timeline; the end entry of every
+    read that shows a value carries it as "shown" (GET /accessories: the characteristic's "value",
+    GET /characteristics: likewise; value-free answers have no "shown").
+
+    Demand: there is ONE order of all value-showing reads, controller writes and accepted worker updates
+    that (a) keeps the loop thread's program order and the worker's program order, (b) puts an operation
+    that ended before another began in front of it, and (c) in which every read shows what the last
+    preceding write / update stored (the initial value if none precedes).  Rejected updates store nothing.
+    """
+    loop_items: List[Dict[str, Any]] = []   # {"kind": "read"|"write", "value", "start", "end", "name"}
+    upd_items: List[Dict[str, Any]] = []
+    open_loop: Dict[Any, int] = {}
+    open_upd: Dict[Any, int] = {}
+    for pos, ev in enumerate(timeline):
+        if ev["t"] == "update":
+            if ev["phase"] == "start":
+                open_upd[ev["j"]] = pos
+            elif ev.get("valid"):
+                upd_items.append({"value": ev["value"], "start": open_upd.get(ev["j"], pos), "end": pos})
+            continue
+        key = ev.get("i")
+        if ev["phase"] == "start":
+            open_loop[key] = pos
+            continue
+        start = open_loop.get(key, pos)
+        if ev["t"] == "write":
+            loop_items.append({"kind": "write", "value": ev["value"], "start": start, "end": pos, "name": "write"})
+        elif "shown" in ev:
+            loop_items.append({"kind": "read", "value": ev["shown"], "start": start, "end": pos, "name": ev["t"]})
+    n, m = len(loop_items), len(upd_items)
+    seen = set()
+    stack = [(0, 0, init)]
+    ok = False
+    while stack:
+        i, j, cur = stack.pop()
+        if (i, j, cur) in seen:
+            continue
+        seen.add((i, j, cur))
+        if i == n and j == m:
+            ok = True
+            break
+        # the next loop item may come now unless a still-unplaced update ended before it began
+        if i < n and not (j < m and upd_items[j]["end"] < loop_items[i]["start"]):
+            it = loop_items[i]
+            if it["kind"] == "write":
+                stack.append((i + 1, j, it["value"]))
+            elif it["value"] == cur:
+                stack.append((i + 1, j, cur))
+        # the next update may come now unless a still-unplaced loop item ended before it began
+        if j < m and not (i < n and loop_items[i]["end"] < upd_items[j]["start"]):
+            stack.append((i, j + 1, upd_items[j]["value"]))
+    if ok:
+        return []
+    shown = [(it["name"], it["value"]) for it in loop_items]
+    return [
+        (
+            "C20:outcome-matches-no-serial-order",
+            f"initial value {init!r}, accepted worker updates {[u['value'] for u in upd_items]!r} (each ran as a whole "
+            f"at one point of the loop's program); the loop's reads / writes, in order, showed {shown!r}: no single "
+            "order of these operations that respects both program orders and real time makes every read show the "
+            "value stored last before it",
+        )
+    ]
+
+
 def judge_thread_ownership(foreign_calls: Sequence[str]) -> List[Tuple[str, str]]:
     """asyncio's own rule, enforced by the loop in debug mode (BaseEventLoop._check_thread:
     "Non-thread-safe operation invoked on an event loop other than the current one"): every loop
